@@ -171,11 +171,14 @@ pub fn rebuild_and_read(b: [u8; 3]) -> bool {
 struct FmtBuf {
     b: [u8; 96],
     n: usize,
+    /// usable capacity: a log line buffer that is (nearly) full makes `write_str` fail, and the
+    /// formatting code has to hand that error back
+    cap: usize,
 }
 impl core::fmt::Write for FmtBuf {
     fn write_str(&mut self, s: &str) -> core::fmt::Result {
         let by = s.as_bytes();
-        if self.n + by.len() > self.b.len() {
+        if self.n + by.len() > self.cap.min(self.b.len()) {
             return Err(core::fmt::Error);
         }
         self.b[self.n..self.n + by.len()].copy_from_slice(by);
@@ -198,7 +201,7 @@ pub fn format_specs(b: [u8; 3]) -> usize {
     let mut total = 0;
     macro_rules! specs {
         ($v:expr) => {{
-            let mut buf = FmtBuf { b: [0; 96], n: 0 };
+            let mut buf = FmtBuf { b: [0; 96], n: 0, cap: 96 };
             let _ = write!(buf, "{}", $v);
             let _ = write!(buf, "{:#}", $v);
             let _ = write!(buf, "{:>6}", $v);
@@ -212,6 +215,14 @@ pub fn format_specs(b: [u8; 3]) -> usize {
             let _ = write!(buf, "{:?}", $v);
             let _ = write!(buf, "{:#?}", $v);
             total += buf.n;
+            // writer fault: the buffer has room for 0..3 more bytes only; an `Err` is the right answer
+            let mut tiny = FmtBuf { b: [0; 96], n: 0, cap: (b[2] % 4) as usize };
+            let mut errs = 0;
+            errs += write!(tiny, "{}", $v).is_err() as usize;
+            errs += write!(tiny, "{:>4}", $v).is_err() as usize;
+            errs += write!(tiny, "{:?}", $v).is_err() as usize;
+            errs += write!(tiny, "{:#06}", $v).is_err() as usize;
+            total += errs;
         }};
     }
     specs!(d1);
@@ -223,9 +234,13 @@ pub fn format_specs(b: [u8; 3]) -> usize {
     total
 }
 
-struct NullSink(usize);
+struct NullSink(usize, usize);
 impl core::fmt::Write for NullSink {
     fn write_str(&mut self, s: &str) -> core::fmt::Result {
+        // writer fault: the sink takes `self.1` bytes and then fails
+        if self.0 + s.len() > self.1 {
+            return Err(core::fmt::Error);
+        }
         self.0 += s.len();
         Ok(())
     }
@@ -235,9 +250,14 @@ impl core::fmt::Write for NullSink {
 /// (scanner in whatever state it is in, reported message) into a sink that needs no heap.
 pub fn debug_dump(v: &impl core::fmt::Debug) -> usize {
     use core::fmt::Write;
-    let mut s = NullSink(0);
+    let mut s = NullSink(0, usize::MAX);
     let _ = write!(s, "{:?}", v);
     let _ = write!(s, "{:#?}", v);
+    // and once more into a sink that fails after a few bytes (the dump's length decides where)
+    let mut f = NullSink(0, s.0 % 23);
+    let _ = write!(f, "{:?}", v);
+    let mut f = NullSink(0, s.0 % 7);
+    let _ = write!(f, "{:#?}", v);
     s.0
 }
 
